@@ -159,7 +159,7 @@ def _noise_raw(proto, noise, when):
     if not noise or noise == "none":
         return
     shape, at = noise.split("@")
-    if shape in ("twin", "fallback", "otherconn"):
+    if shape in ("twin", "fallback", "otherconn", "spoiled"):
         return          # handled by the vector itself
     if shape == "split":
         # a multi-line event is half received when the command is issued; the rest arrives before the reply
@@ -186,6 +186,17 @@ def _noise_raw(proto, noise, when):
 
 def stuff(line):
     return "." + line if line.startswith(".") else line
+
+
+def _spoil(result):
+    """what a caller may do with a result it owns: take it apart"""
+    if isinstance(result, dict):
+        for v in list(result.values()):
+            if isinstance(v, list):
+                del v[:]
+        result.clear()
+    elif isinstance(result, list):
+        del result[:]
 
 
 def _fallback(proto, issue):
@@ -227,6 +238,24 @@ def getinfo_vector(kvs, seg="whole", rng=None, noise="none", api="dict"):
             p.get_info_single(kvs[0][0]).addBoth(_single(fired, kvs[0][0]))
         else:
             p.get_info(*[k for k, _, _ in kvs]).addBoth(fired.append)
+    if noise == "spoiled@before":
+        # the very same request was made and answered before (here and on another connection of the process), and the
+        # callers took the results they got apart; this request's result is its own
+        for conn in (p, cc.Run(wrap=False).proto):
+            got = []
+            if api == "single":
+                conn.get_info_single(kvs[0][0]).addBoth(got.append)
+            else:
+                conn.get_info(*[k for k, _, _ in kvs]).addBoth(got.append)
+            w0 = []
+            for key, block, lines in kvs:
+                if block:
+                    w0 += ["250+%s=" % key] + [stuff(l) for l in lines] + ["."]
+                else:
+                    w0.append("250-%s=%s" % (key, lines[0]))
+            conn.dataReceived("".join(w + "\r\n" for w in w0 + ["250 OK"]).encode("latin-1"))
+            if got:
+                _spoil(got[0])
     if noise == "fallback@before":
         broke = _fallback(p, issue)
     else:
@@ -278,6 +307,17 @@ def getconf_vector(key, unset, vals, seg="whole", rng=None, noise="none", api="d
             p.get_conf_single(key).addBoth(_single(fired, key))
         else:
             p.get_conf(key).addBoth(fired.append)
+    if noise == "spoiled@before":
+        for conn in (p, cc.Run(wrap=False).proto):
+            got = []
+            (conn.get_conf_single(key) if api == "single" else conn.get_conf(key)).addBoth(got.append)
+            if unset:
+                w0 = ["250 %s" % key]
+            else:
+                w0 = ["250%s%s=%s" % (" " if i == len(vals) - 1 else "-", key, v) for i, v in enumerate(vals)]
+            conn.dataReceived("".join(w + "\r\n" for w in w0).encode("latin-1"))
+            if got:
+                _spoil(got[0])
     if noise == "fallback@before":
         broke = broke or _fallback(p, issue)
     else:
